@@ -88,6 +88,7 @@ type DownOutcome struct {
 	ProbeErr         string
 	CloseErr         string
 	ReadStreamClosed bool
+	Consumed         []uint32 // sequence numbers of the chunks ReadDataPoints returned, in order
 }
 
 type Outcome struct {
@@ -515,7 +516,10 @@ func Run(s Scenario) *Outcome {
 		go func(i int, d *downRT) {
 			defer readWG.Done()
 			for {
-				_, err := d.d.ReadDataPoints(rctx)
+				chk, err := d.d.ReadDataPoints(rctx)
+				if err == nil {
+					d.out.Consumed = append(d.out.Consumed, chk.SequenceNumber)
+				}
 				if err != nil {
 					if rctx.Err() == nil && errors.Is(err, iscperrors.ErrStreamClosed) {
 						d.out.ReadStreamClosed = true
